@@ -13,6 +13,18 @@ ASSUME = ("Trusted base: g++ 12.2 / clang++ 14 (front end = interpreter of the t
           "vf/model + harness/*.hh, which contains no Au code. ")
 
 CHECKS = {
+    "C08": dict(level="exploration", technique="bounded exhaustive operand-pair enumeration for mixed-unit operators vs exact 128-bit rational arithmetic",
+                text="Unit-pair grid (integer, reciprocal, rational ratios) x all ordered rep pairs of equal signedness from 16/32/64-bit (both orders of narrow/wide) "
+                     "and {float,double}: the full 8-bit operand square, window x window over every overflow breakpoint, and near-diagonal pairs; all six comparisons, "
+                     "+, -, %, <=> in both argument orders against exact arithmetic in the gcd unit, with the no-overflow precondition evaluated by the oracle; "
+                     "trichotomy, antisymmetry and transitivity on the full 8-bit cube of a three-unit chain.",
+                ref="DESIGN.md §6 C08"),
+    "C09": dict(level="exploration", technique="bounded exhaustive value enumeration for point conversions/comparisons vs the exact affine map, plus accept/reject probes",
+                text="Ordered pairs of point units (Kelvins/Celsius/Fahrenheit, prefixed forms, generated units with rational scale and origin) x rep pairs: every "
+                     "conversion form over +-2^15 around zero, each origin and absolute zero plus limit windows, against the exact affine map with the documented "
+                     "intermediate modelled and out-of-precondition values counted and never executed; comparisons, p-p, p+-q against exact absolute positions; "
+                     "operations without affine meaning must be rejected while their twins compile.",
+                ref="DESIGN.md §6 C09"),
     "C05": dict(level="exploration", technique="bounded exhaustive value enumeration over all 11x11 rep pairs vs a compositional stage oracle (128-bit integers, exact float castability), every-event UBSan observer",
                 text="1640 compiling (source rep, target rep, factor) instances: all values of 8/16-bit sources, stage-limit windows for 32/64-bit, a structured "
                      "floating alphabet (every power of two with neighbours, limits and their pre-images +-64 ulp, NaNs, infinities, denormals), and in thorough all 2^32 "
